@@ -924,9 +924,9 @@ func (e *Exec) doQuery(c *Cmd, sl *slots) string {
 		if err != nil {
 			return errKind(err)
 		}
-		fs = append([]string(nil), fs...)
-		sort.Strings(fs)
-		return strList(fs)
+		// in the order the segment gives them: both loaders register the fields in field-number
+		// order (no Go map decides it), so the order is part of what must coincide
+		return strList(append([]string(nil), fs...))
 	case "post":
 		return e.qPost(c, sg, sl)
 	case "dict":
